@@ -10,7 +10,7 @@ BUILT = {
         "G", "5/C20",
         "deterministic simulation: the real run_backtests / backtest() stack (HistoricalClock via hook H1, mock exchange, execution manager, system in stream mode, shutdown_after_backtest) for 2-6 concurrent backtests on one paused, seeded tokio runtime with seeded pacing and spurious yields of the engine feed (hook H2); completeness check + differential concurrent-vs-alone comparison",
         "Seeded search over datasets x numbers of concurrent backtests x strategy parameterisations x task interleavings (per-backtest pacing with ties around the exchange latency, tokio select!/merge seed, H2 yield rate). Each engine must see every dataset event exactly once in order before shutdown (G1), the returned summary must equal an independent realised-PnL accounting of that backtest's own fills (G2), and fills, final positions, balances and realised PnL must equal those of the same backtest re-run alone in a fresh runtime (G3).",
-        "Trusted: the recording strategy / data stubs, the independent PnL accounting, tokio's paused single-thread runtime. NOT explored: runtime thread counts (tokio's multi-thread scheduler cannot be controlled or replayed) and wall-clock skew/jumps. One recorded finding (engine-held balance depends on same-instant interleaving through HistoricalClock stepping backwards) is matched only when everything except engine-held balances agrees.",
+        "Trusted: the recording strategy / data stubs, the independent PnL accounting, tokio's paused single-thread runtime. NOT explored: runtime thread counts (tokio's multi-thread scheduler cannot be controlled or replayed) and wall-clock skew/jumps. One recorded finding (engine-held balance depends on same-instant interleaving through HistoricalClock stepping backwards) is matched only when everything except engine-held balances agrees. Also checked: the events each instrument's own market-data state was fed (exactly once, in order), an upper bound on every exchange timestamp from the backtest's own clock (isolation of clocks), fill ids alone vs concurrently (verified in fresh processes), backtests sharing an id label.",
     ),
     "C06": (
         "D2", "5/C06",
@@ -22,7 +22,7 @@ BUILT = {
         "D1", "5/C12",
         "deterministic simulation: real reconnect combinators (init_reconnecting_stream, backoff, termination-on-error, reconnection events, error handler, forward_to) and merge driven by a seeded connection script on a paused tokio runtime; output and init-call instants compared with a script interpreter",
         "Seeded search over connection scripts (init failure bursts reaching the backoff cap, connections with items / non-terminal / terminal errors and virtual delays, empty connections, receiver dropped mid-stream) x backoff policies, and over pairs of input streams with many simultaneous emissions for merge. Every item must appear exactly once, in order, at its exact virtual instant; one reconnecting notice per connection; init calls at initial x multiplier^k capped and reset; the stream never ends by itself; merge preserves per-input order and ends exactly when either input ends.",
-        "Trusted: the ~40-line script interpreter and tokio's paused clock. The consumer polls continuously (next init starts at the instant the previous connection ended). Policies keep initial <= max and avoid u64 overflow.",
+        "Trusted: the ~40-line script interpreter and tokio's paused clock. The consumer polls continuously (next init starts at the instant the previous connection ended). Policies keep initial <= max and avoid u64 overflow. A fourth sub-batch runs 2-3 scripted sockets (with failing re-initialisations) through the exchange channels of a real StreamBuilder and MultiStreamBuilder::{add, init}.",
     ),
     "C08": (
         "E", "5/C08",
@@ -33,7 +33,7 @@ BUILT = {
     "C07": (
         "C", "5/C07",
         "deterministic simulation: real ExecutionManager::run on a paused, seeded current-thread tokio runtime (discrete-event virtual time) behind a scripted ExecutionClient (delays around the timeout, silence, errors), history check with exact virtual timestamps",
-        "Seeded search over request batches (1-64 outstanding, bursts), per-request client behaviour (Ok / fully filled / rejected / connectivity error after any delay below, at or above the timeout, or never), timeouts from 1 ms to 60 s, select! tie-breaks and a response receiver that goes away; some requests share the client order id of another request on a different instrument. The recorded response history must contain exactly one event per accepted request, at the exact virtual instant, of the right kind and attribution, the client's own answer iff it beat the timeout.",
+        "Seeded search over request batches (1-64 outstanding, bursts), per-request client behaviour (Ok / fully filled / rejected / connectivity error after any delay below, at or above the timeout, or never), timeouts from 1 ms to 60 s, select! tie-breaks and a response receiver that goes away; some requests share the client order id of another request on a different instrument. In a quarter of the runs the client is the real MockExecution in front of a scripted mock exchange that may go away while requests are outstanding. The recorded response history must contain exactly one event per accepted request, at the exact virtual instant, of the right kind and attribution, the client's own answer iff it beat the timeout.",
         "Trusted: the scripted client, the virtual-time driver/collector and tokio's paused-clock runtime (timer wheel, FIFO run queue, seeded select!). A response exactly at the timeout instant is accepted either way; a clock-leap fault (the clock jumps past the response instant and the deadline in one step) distinguishes 'response first' from 'deadline first' when the delay is below the timeout. Multi-threaded runtime scheduling is not explored.",
     ),
     "C04": (
@@ -52,7 +52,7 @@ BUILT = {
         "B", "5/C03",
         "deterministic simulation: real Engine::process behind fault-injecting execution links (healthy/unhealthy/closed/missing, unknown exchange index), scripted strategy + risk refusals, trading toggles and commands; audit vs link logs vs in-flight marks after every event",
         "Seeded search over engine event histories x strategy/risk outputs x execution-link fault patterns x trading-state toggles x the four commands. The real engine processes every event; after each one the requests actually received by every link, the audit's sent/failed/refused report, the fatal-error list and terminal flag, and the in-flight marks in EngineState are compared with what the scenario generated (S1-S7).",
-        "Trusted: the accounting oracle in sim_b.rs and the SimTx/strategy/risk stubs. The state after the event but before requests are sent is obtained by running the real update code on a clone (reference point for marks only). When strategy requests hit a fatal link error the engine omits the per-request output; the oracle accepts that and checks deliveries, marks and error count.",
+        "Trusted: the accounting oracle in sim_b.rs and the SimTx/strategy/risk stubs. The state after the event but before requests are sent is obtained by running the real update code on a clone (reference point for marks only). When strategy requests hit a fatal link error the engine omits the per-request output; the oracle accepts that and checks deliveries, marks and error count. An open command may re-use the client order id of an order that is still tracked (it must then be shown as open-in-flight).",
     ),
     "C14": (
         "B", "5/C14",
@@ -64,7 +64,7 @@ BUILT = {
         "B", "5/C15",
         "deterministic simulation: seeded interleavings of the fill stream and the priced market stream into one engine feed; independent PnL estimate evaluated after every event",
         "Seeded search over interleavings of fills (open / increase / reduce / flip, with and without fees) and market events (public trades, top-of-book, late ones ignored by the data guard, non-priced kinds) on 1-3 instruments through the real Engine::process; after every event pnl_unrealised of every open position is compared with the documented estimate computed independently (P1 market refresh, P2 after fill, P3 unchanged otherwise).",
-        "Trusted: the estimate formula in sim_b.rs (tolerance 1e-9) and reading the current price through the public InstrumentDataState::price(). One recorded finding (opening fill with a fee leaves 0, pinned by unit tests) is matched narrowly.",
+        "Trusted: the estimate formula in sim_b.rs (tolerance 1e-9) and reading the current price through the public InstrumentDataState::price(). One recorded finding (opening fill with a non-zero fee leaves 0, pinned by unit tests) is matched narrowly. Fees may be negative (rebates) and public trade prices zero or negative.",
     ),
     "C19": (
         "B", "5/C19",
@@ -76,13 +76,13 @@ BUILT = {
         "A", "5/C01",
         "deterministic simulation: seeded exchange scripts + faulty network (delay/reorder/dup/drop/stale snapshot) vs per-order lifecycle reference model, checked after every delivered message",
         "Seeded search over interleavings of order requests, exchange reports and cancel responses for several concurrent order ids, delivered by a simulated exchange through a delaying / reordering / duplicating / dropping network into the real EngineState; every step is compared with a lifecycle model written from the statement (tracked set, state kind, exchange data, timestamp monotonicity, byte-identical non-interference). A clean batch is evidence, not proof.",
-        "Trusted: the reference model (sim_a.rs, ~120 lines) and the harness. Reports keep side/price/quantity fixed per order; equal timestamps accept either value; snapshots that carry an in-flight state are checked only for 'tracked stays tracked'.",
+        "Trusted: the reference model (sim_a.rs, ~120 lines) and the harness. Reports keep side/price/quantity fixed per order; equal timestamps accept either value; snapshots that carry an in-flight state are checked only for 'tracked stays tracked'. A scenario may count its timestamps in units of 250, 7 or 1 microseconds instead of milliseconds.",
     ),
     "C09": (
         "A", "5/C09",
         "deterministic simulation: seeded permutations-with-repetition of timestamped balance / order / market messages vs max-timestamp oracle after every delivery",
         "Seeded search over delivery orders (late, duplicated, equal-timestamp) of balance snapshots, order reports, multi-item account snapshots, public trades and top-of-book updates through the engine's account and market entry points; after every delivery each item must hold the greatest delivered timestamp with a value delivered at that timestamp, everything else byte-identical.",
-        "Trusted: the oracle bookkeeping in sim_a.rs. One recorded finding (stale Open report re-tracks an order the engine holds no data for) is matched narrowly and reported as KNOWN-FINDING.",
+        "Trusted: the oracle bookkeeping in sim_a.rs. One recorded finding (stale Open report re-tracks an order the engine holds no data for) is matched narrowly - not when the engine itself discarded the order's data on a mere cancel request - and reported as KNOWN-FINDING. Top-of-book updates may have one or both sides empty; timestamps may be sub-millisecond.",
     ),
 }
 
@@ -162,7 +162,7 @@ def main():
         ],
         "checks": checks,
         "not_applicable": na,
-        "notes": "All checks: exit 0 = held on everything explored; exit 1 + 'VIOLATION property=<id> replay=<path>' = violation with a minimised, replayable scenario; exit 2 = harness error (never a verdict). known_findings.json lists recorded defects (open) and repaired ones (fixed). H1 (wall-clock seam) rewrites four Utc::now() call sites, hence add_only=false; H2 is add-only.",
+        "notes": "All checks: exit 0 = held on everything explored; exit 1 + 'VIOLATION property=<id> replay=<path>' = violation with a minimised scenario that was re-executed twice in fresh processes before being reported; exit 2 = harness error (never a verdict). known_findings.json lists recorded defects (open) and repaired ones (fixed). H1 (wall-clock seam) rewrites four Utc::now() call sites, hence add_only=false; H2 is add-only.",
     }
     with open(os.path.join(HERE, "MANIFEST.json"), "w") as f:
         json.dump(manifest, f, indent=1)
